@@ -13,6 +13,8 @@ Reading of the manual (docs/md/preparing.md, "Manual hints") made explicit here,
 import Paroxy.Model.Hints
 namespace Paroxy.Hints
 
+variable (O : CharOracle)
+
 /-- What a trailing hint token says. `del = true` is the `-` sign. -/
 inductive Mark
   | one (del : Bool)   -- `L`, `+L`, `-L`: on this line
@@ -170,7 +172,7 @@ def noTie (w : List Ev) : Bool :=
 /-! ### Malformed hint comments (any text) -/
 
 /-- How the token regex reads a raw token, if it accepts it. -/
-def classify (t : Str) : Option Tok := (matchLabel t).map fun p => ⟨p.1, p.2.1, p.2.2⟩
+def classify (t : Str) : Option Tok := ((matchLabel O) t).map fun p => ⟨p.1, p.2.1, p.2.2⟩
 
 /-- An opening mark of label `L` (`L...`, `+L...`, `-L...`). -/
 def Tok.isOpen (k : Tok) (L : Str) : Bool := k.after && k.before != .dots && k.label == L
@@ -181,37 +183,37 @@ def Tok.illegal (k : Tok) : Bool := k.after && k.before == .dots
 
 /-- A token the matcher rejects (or of the illegal form `...L...`). -/
 def rejected (t : Str) : Bool :=
-  match classify t with
+  match (classify O) t with
   | none => true
   | some k => k.illegal
 
 def tokCount (f : Tok → Bool) (toks : List (Nat × Str)) : Nat :=
-  toks.countP fun p => match classify p.2 with
+  toks.countP fun p => match (classify O) p.2 with
     | some k => f k
     | none => false
 
-def opensOf (L : Str) (toks : List (Nat × Str)) : Nat := tokCount (·.isOpen L) toks
-def closesOf (L : Str) (toks : List (Nat × Str)) : Nat := tokCount (·.isClose L) toks
+def opensOf (L : Str) (toks : List (Nat × Str)) : Nat := (tokCount O) (·.isOpen L) toks
+def closesOf (L : Str) (toks : List (Nat × Str)) : Nat := (tokCount O) (·.isClose L) toks
 
 /-- The hint tokens of a text are malformed: some token is rejected, or for some label a closing
 mark comes with no opening mark still open before it, or an opening mark is never closed. -/
 def Malformed (toks : List (Nat × Str)) : Prop :=
-  (∃ p ∈ toks, rejected p.2 = true) ∨
-    ∃ L, (∃ pre, pre <+: toks ∧ opensOf L pre < closesOf L pre) ∨ opensOf L toks ≠ closesOf L toks
+  (∃ p ∈ toks, (rejected O) p.2 = true) ∨
+    ∃ L, (∃ pre, pre <+: toks ∧ (opensOf O) L pre < (closesOf O) L pre) ∨ (opensOf O) L toks ≠ (closesOf O) L toks
 
 /-- Executable form of `Malformed` for the labels occurring in the tokens. -/
 def labelsIn (toks : List (Nat × Str)) : List Str :=
-  toks.filterMap fun p => (classify p.2).map (·.label)
+  toks.filterMap fun p => ((classify O) p.2).map (·.label)
 
 def unbalancedB (L : Str) (toks : List (Nat × Str)) : Bool :=
-  (List.range (toks.length + 1)).any (fun n => opensOf L (toks.take n) < closesOf L (toks.take n)) ||
-    opensOf L toks != closesOf L toks
+  (List.range (toks.length + 1)).any (fun n => (opensOf O) L (toks.take n) < (closesOf O) L (toks.take n)) ||
+    (opensOf O) L toks != (closesOf O) L toks
 
 def malformedB (toks : List (Nat × Str)) : Bool :=
-  toks.any (fun p => rejected p.2) || (labelsIn toks).any fun L => unbalancedB L toks
+  toks.any (fun p => (rejected O) p.2) || ((labelsIn O) toks).any fun L => (unbalancedB O) L toks
 
 /-- The numbered hint tokens of a text. -/
-def hintToks (c : Str) : List (Nat × Str) := numberedTokens 1 (splitNL c)
+def hintToks (c : Str) : List (Nat × Str) := (numberedTokens O) 1 (splitNL c)
 
 /-! ### Hygiene: what `decorate` assumes of the program and of the labels -/
 
@@ -219,7 +221,7 @@ def noM13 (l : Str) : Bool := !hasInfix m13 l
 def noNL (l : Str) : Bool := !l.contains '\n'
 def noTrailWs (l : Str) : Bool :=
   match l.getLast? with
-  | some c => !isSpacePy c
+  | some c => !(isSpacePy O) c
   | none => true
 
 /-- A label the token regex reads back as itself: starts with a word character, contains no
@@ -227,12 +229,12 @@ white space, does not end with an ellipsis. -/
 def cleanLabel (L : Str) : Bool :=
   match L with
   | [] => false
-  | c :: _ => isWord c && L.all (fun x => !isSpacePy x) && !(splitAfter L).2
+  | c :: _ => (isWord O) c && L.all (fun x => !(isSpacePy O) x) && !(splitAfter L).2
 
 /-- A code line: one line, no hint marker, no trailing white space; not blank when it carries hints. -/
 def okCode (c : CodeLine) : Bool :=
-  noNL c.code && noM13 c.code && noTrailWs c.code && (c.hints.isEmpty || !c.code.isEmpty) &&
-    c.hints.all fun h => cleanLabel h.label
+  noNL c.code && noM13 c.code && (noTrailWs O) c.code && (c.hints.isEmpty || !c.code.isEmpty) &&
+    c.hints.all fun h => (cleanLabel O) h.label
 
 def firstOk (c : CodeLine) : Bool := !c.code.isEmpty
 
@@ -241,7 +243,7 @@ def lastOk (c : CodeLine) : Bool := !c.code.isEmpty
 /-- Hygienic lines whose first and last code lines are not blank (what `centrifugate_hints` leaves
 once the blank lines are trimmed, see `normalised`). -/
 def hygienic (d : Decorated) : Bool :=
-  (codeLines d).all okCode && (wholeLabels d).all cleanLabel &&
+  (codeLines d).all (okCode O) && (wholeLabels d).all (cleanLabel O) &&
     match codeLines d with
     | [] => false
     | c :: cs => firstOk c && lastOk ((c :: cs).getLast (by simp))
@@ -321,20 +323,20 @@ def normalised (d : List (Line × MarkerStyle)) : Decorated := core2 (trimmed d)
 def scanAccepts : NState → Str → Bool
   | _, [] => false
   | st, c :: t =>
-    match nstep st c with
+    match (nstep O) st c with
     | .cont s => scanAccepts s t
     | .reset => scanAccepts .idle t
     | .hash => scanAccepts .hash t
     | .accept => true
     | .drop => scanAccepts .tail t
 
-def noLoose (l : Str) : Bool := !scanAccepts .idle l
+def noLoose (l : Str) : Bool := !(scanAccepts O) .idle l
 def noHash (l : Str) : Bool := !l.contains '#'
 
 /-- Hygiene of the code lines and labels when the marker may be spelled freely: no look-alike of
 the marker in the code, no `#` in a label. -/
 def looseOk (d : Decorated) : Bool :=
-  (codeLines d).all (fun c => noLoose c.code && c.hints.all fun h => noHash h.label) &&
+  (codeLines d).all (fun c => (noLoose O) c.code && c.hints.all fun h => noHash h.label) &&
     (wholeLabels d).all noHash
 
 /-! ### The decorated program after centrifugation (isolated hints moved to both ends) -/
